@@ -13,6 +13,7 @@ package main
 import (
 	"fmt"
 	"go/token"
+	"go/types"
 	"sort"
 	"strings"
 
@@ -294,6 +295,7 @@ func checkLockset(p *Prog, r *Report, rule string, tbl *lockTable, scope func(fn
 		a := stats[k]
 		r.Check(rule, k, a.bad == 0, a.pos, fmt.Sprintf("%d of %d accesses happen without the lock held, in: %s", a.bad, a.n, joinSorted(a.where)))
 	}
+	checkContainerAliases(p, r, rule, tbl, scope)
 	for fn, why := range tbl.exempt {
 		r.Note("%s exempt %s: %s", rule, fn, why)
 	}
@@ -310,4 +312,206 @@ func shortType(s string) string {
 		return s[i+1:]
 	}
 	return s
+}
+
+// checkContainerAliases: a guarded slice or map field read under its lock
+// yields a header that shares its backing storage with the field. Element
+// accesses through that alias (indexing, ranging, map lookup/update, copying
+// from it) need the lock as well - unless, on every path from the read to the
+// access, the field itself was re-assigned a value that does not derive from
+// the alias (the swap-out idiom: the old storage became private).
+func checkContainerAliases(p *Prog, r *Report, rule string, tbl *lockTable, scope func(fn *ssa.Function) bool) {
+	nAlias := 0
+	type finding struct {
+		pos, where string
+		path       []string
+	}
+	bad := map[string]*finding{}
+	seenField := map[string]int{}
+	for _, fn := range p.SrcFuncs() {
+		if scope != nil && !scope(fn) {
+			continue
+		}
+		name := funcName(fn)
+		if tbl.exempt[name] != "" {
+			continue
+		}
+		var held map[ssa.Instruction]heldSet
+		for _, b := range fn.Blocks {
+			for _, ins := range b.Instrs {
+				ld, ok := ins.(*ssa.UnOp)
+				if !ok || ld.Op != token.MUL {
+					continue
+				}
+				fa, ok := ld.X.(*ssa.FieldAddr)
+				if !ok {
+					continue
+				}
+				fkey := typeNameOf(fa.X) + "." + fieldName(fa.X.Type(), fa.Field)
+				lock, guarded := tbl.guards[fkey]
+				if !guarded {
+					continue
+				}
+				switch ld.Type().Underlying().(type) {
+				case *types.Slice, *types.Map:
+				default:
+					continue
+				}
+				if al, ok := fa.X.(*ssa.Alloc); ok && al.Parent() == fn {
+					continue
+				}
+				if held == nil {
+					entry := heldSet{}
+					for _, k := range tbl.heldOnEntry[name] {
+						entry[k] = true
+					}
+					held = heldAt(fn, entry, nil)
+				}
+				nAlias++
+				seenField[fkey]++
+				// values sharing the backing storage
+				derived := map[ssa.Value]bool{ld: true}
+				// every other read of the same field sees the same storage unless a detaching store intervened;
+				// treating them as one class keeps 'x.f = x.f[:0]' from counting as a swap-out
+				for _, bb := range fn.Blocks {
+					for _, i2 := range bb.Instrs {
+						if u2, ok := i2.(*ssa.UnOp); ok && u2.Op == token.MUL {
+							if fa2, ok := u2.X.(*ssa.FieldAddr); ok && fa2.Field == fa.Field && typeNameOf(fa2.X) == typeNameOf(fa.X) {
+								derived[u2] = true
+							}
+						}
+					}
+				}
+				for changed := true; changed; {
+					changed = false
+					for _, bb := range fn.Blocks {
+						for _, i2 := range bb.Instrs {
+							v, isV := i2.(ssa.Value)
+							if !isV || derived[v] {
+								continue
+							}
+							switch w := i2.(type) {
+							case *ssa.Slice:
+								if derived[w.X] {
+									derived[v], changed = true, true
+								}
+							case *ssa.Phi:
+								for _, e := range w.Edges {
+									if derived[e] {
+										derived[v], changed = true, true
+									}
+								}
+							case *ssa.ChangeType:
+								if derived[w.X] {
+									derived[v], changed = true, true
+								}
+							case *ssa.Call:
+								if bi, ok := w.Call.Value.(*ssa.Builtin); ok && bi.Name() == "append" && len(w.Call.Args) > 0 && derived[w.Call.Args[0]] {
+									derived[v], changed = true, true
+								}
+							}
+						}
+					}
+				}
+				detaches := func(i ssa.Instruction) bool {
+					st, ok := i.(*ssa.Store)
+					if !ok {
+						return false
+					}
+					fa2, ok := st.Addr.(*ssa.FieldAddr)
+					if !ok || fa2.Field != fa.Field || typeNameOf(fa2.X) != typeNameOf(fa.X) {
+						return false
+					}
+					return !derived[st.Val]
+				}
+				for _, bb := range fn.Blocks {
+					for _, i2 := range bb.Instrs {
+						touch, write := false, false
+						switch w := i2.(type) {
+						case *ssa.IndexAddr:
+							touch = derived[w.X]
+							// a store through the element address is a write; decide by the referrers
+							if touch && w.Referrers() != nil {
+								for _, ref := range *w.Referrers() {
+									if st, ok := ref.(*ssa.Store); ok && st.Addr == ssa.Value(w) {
+										write = true
+									}
+								}
+							}
+						case *ssa.Index:
+							touch = derived[w.X]
+						case *ssa.Lookup:
+							touch = derived[w.X]
+						case *ssa.Range:
+							touch = derived[w.X]
+						case *ssa.MapUpdate:
+							touch, write = derived[w.Map], true
+						case *ssa.Call:
+							if bi, ok := w.Call.Value.(*ssa.Builtin); ok {
+								switch bi.Name() {
+								case "append":
+									for _, a := range w.Call.Args[1:] {
+										if derived[a] {
+											touch = true
+										}
+									}
+									if derived[w.Call.Args[0]] {
+										touch, write = true, true
+									}
+								case "copy":
+									if derived[w.Call.Args[0]] {
+										touch, write = true, true
+									}
+									if derived[w.Call.Args[1]] {
+										touch = true
+									}
+								case "delete", "clear":
+									if derived[w.Call.Args[0]] {
+										touch, write = true, true
+									}
+								}
+							}
+						}
+						if !touch || held[i2].holds(lock, write) {
+							continue
+						}
+						// reachable from the load without a detaching store in between?
+						hit, path := reachAvoiding(fn, ld, func(i ssa.Instruction) bool { return i == i2 }, detaches, nil)
+						if hit == nil {
+							continue
+						}
+						key := fkey + " alias in " + name
+						if bad[key] == nil {
+							bad[key] = &finding{pos: p.Pos(i2.Pos()), where: name, path: blocksString(p, path)}
+						}
+					}
+				}
+			}
+		}
+	}
+	var fkeys []string
+	for k := range seenField {
+		fkeys = append(fkeys, k)
+	}
+	sort.Strings(fkeys)
+	for _, fk := range fkeys {
+		var hits []string
+		var first *finding
+		for k, f := range bad {
+			if strings.HasPrefix(k, fk+" alias in ") {
+				hits = append(hits, f.where)
+				if first == nil || f.pos < first.pos {
+					first = f
+				}
+			}
+		}
+		sort.Strings(hits)
+		if first == nil {
+			r.Check(rule+"-alias", fk+": its elements are only accessed through a local copy of the header while "+tbl.guards[fk]+" is held (or after the field was swapped out)", true, "-", "")
+		} else {
+			r.Check(rule+"-alias", fk+": its elements are only accessed through a local copy of the header while "+tbl.guards[fk]+" is held (or after the field was swapped out)", false, first.pos,
+				"the slice/map header read under the lock shares its storage with the field, the field keeps that storage, and the elements are accessed after the lock was dropped, in: "+strings.Join(hits, ", ")+" - a concurrent holder of the lock overwrites or reads the same elements", first.path...)
+		}
+	}
+	r.Counts[rule+"-alias container headers read from guarded fields"] = nAlias
 }
